@@ -21,7 +21,7 @@
    C09-davidson-space-cap.patch (at most N - space vectors are added); FALSE is the code as
    found: the search space can then exceed the operator size N (invariant SpaceFitsOperator
    fails, MCDavidsonUnfixed.cfg), i.e. V gets more columns than rows and cannot be orthonormal. *)
-EXTENDS Integers, Sequences, FiniteSets, TLC
+EXTENDS DavidsonOps
 
 CONSTANT CapExtension
 
@@ -41,41 +41,6 @@ VARIABLES
   restarts      \* number of restarts so far (ghost)
 
 vars == <<c, pc, iter, space, nconv, nconvx, nupdate, update, restartSize, maxSpace, status, restarts>>
-
-Min(a, b) == IF a < b THEN a ELSE b
-Max(a, b) == IF a > b THEN a ELSE b
-
-Upds == {"min", "safe", "max"}
-Corrs == {"DPR", "OLSEN"}
-Tols == {"loose", "normal", "strict", "lapack"}
-Modes == {"SYMM", "HAM"}
-
-\* getSizeUpdate:  static_cast<Index>(1.5 * neigen) = floor(3n/2)
-SizeUpdate(upd, n) ==
-  CASE upd = "min" -> n
-    [] upd = "safe" -> IF n < 20 THEN (3 * n) \div 2 ELSE n + 10
-    [] upd = "max" -> 2 * n
-
-\* set_tolerance: tol_ = 10^-TolExp
-TolExp(tol) ==
-  CASE tol = "loose" -> 3 [] tol = "normal" -> 4 [] tol = "strict" -> 5 [] tol = "lapack" -> 9
-
-\* solve(): if (max_search_space_ < neigen) max_search_space_ = 5*neigen;  checkOptions: clamp to N
-RequestedMaxSpace(mss, n) == IF mss < n THEN 5 * n ELSE mss
-Clamped(cf) == RequestedMaxSpace(cf.mss, cf.neigen) > cf.N
-EffMaxSpace(cf) == IF Clamped(cf) THEN cf.N ELSE RequestedMaxSpace(cf.mss, cf.neigen)
-
-InitialGuess(cf) == IF cf.sig = 0 THEN 2 * cf.neigen ELSE cf.sig
-
-\* Domain in which solve() is defined: the start vectors exist (setupInitialEigenvectors indexes
-\* idx(j), resp. idx(N/2 + j) in HAM mode, for j < size_initial_guess) and the first
-\* size_update Ritz pairs exist (checkConvergence takes res_norm().head(size_update)).
-WellFormed(cf) ==
-  /\ cf.N >= 1 /\ cf.neigen >= 1 /\ cf.itermax >= 1 /\ cf.mss >= 0 /\ cf.sig >= 0
-  /\ cf.upd \in Upds /\ cf.corr \in Corrs /\ cf.tol \in Tols /\ cf.mode \in Modes
-  /\ IF cf.mode = "HAM" THEN cf.N % 2 = 0 /\ cf.N \div 2 + InitialGuess(cf) <= cf.N
-                        ELSE InitialGuess(cf) <= cf.N
-  /\ SizeUpdate(cf.upd, cf.neigen) <= InitialGuess(cf)
 
 InitWith(cf) ==
   /\ c = cf
